@@ -6,8 +6,12 @@ use crate::app::control::CommandStatus;
 use crate::app::measurement::*;
 use crate::app::parse::options::ParseOptions;
 use crate::app::variations::{Group12Var1, Group41Var1, Group41Var2, Group41Var3, Group41Var4};
-use crate::app::{BufferSize, FunctionCode, MaybeAsync, NullListener, RequestHeader, Sequence, Timeout, Timestamp};
-use crate::decode::{AppDecodeLevel, DecodeLevel, LinkDecodeLevel, PhysDecodeLevel, TransportDecodeLevel};
+use crate::app::{
+    BufferSize, FunctionCode, MaybeAsync, NullListener, RequestHeader, Sequence, Timeout, Timestamp,
+};
+use crate::decode::{
+    AppDecodeLevel, DecodeLevel, LinkDecodeLevel, PhysDecodeLevel, TransportDecodeLevel,
+};
 use crate::link::reader::LinkModes;
 use crate::link::{EndpointAddress, LinkErrorMode, LinkReadMode};
 use crate::outstation::database::*;
@@ -102,7 +106,13 @@ impl OutCfg {
         c.rx_buffer_size = BufferSize::new(self.rx).expect("rx size");
         c.confirm_timeout = Timeout::from_millis(self.confirm_timeout_ms).expect("confirm timeout");
         c.select_timeout = Timeout::from_millis(self.select_timeout_ms).expect("select timeout");
-        let f = |b: bool| if b { Feature::Enabled } else { Feature::Disabled };
+        let f = |b: bool| {
+            if b {
+                Feature::Enabled
+            } else {
+                Feature::Disabled
+            }
+        };
         c.features = Features {
             self_address: f(self.self_address),
             broadcast: f(self.broadcast),
@@ -134,11 +144,27 @@ impl OutCfg {
 pub enum Cb {
     BeginConfirm,
     EventCleared(u64),
-    EndConfirm { classes: [usize; 3], types: [usize; 8] },
+    EndConfirm {
+        classes: [usize; 3],
+        types: [usize; 8],
+    },
     BeginFragment,
     EndFragment,
-    Select { group: u8, var: u8, index: u16, repr: String, status: u8 },
-    Operate { group: u8, var: u8, index: u16, repr: String, op: u8, status: u8 },
+    Select {
+        group: u8,
+        var: u8,
+        index: u16,
+        repr: String,
+        status: u8,
+    },
+    Operate {
+        group: u8,
+        var: u8,
+        index: u16,
+        repr: String,
+        op: u8,
+        status: u8,
+    },
     WriteAbsTime(u64),
     ColdRestart,
     WarmRestart,
@@ -154,7 +180,14 @@ impl Cb {
     pub fn is_mutating(&self) -> bool {
         matches!(
             self,
-            Cb::Select { .. } | Cb::Operate { .. } | Cb::WriteAbsTime(_) | Cb::ColdRestart | Cb::WarmRestart | Cb::Freeze(_) | Cb::DeadBand(..) | Cb::WriteAttr
+            Cb::Select { .. }
+                | Cb::Operate { .. }
+                | Cb::WriteAbsTime(_)
+                | Cb::ColdRestart
+                | Cb::WarmRestart
+                | Cb::Freeze(_)
+                | Cb::DeadBand(..)
+                | Cb::WriteAttr
         )
     }
 }
@@ -164,7 +197,10 @@ impl Cb {
 pub enum CtrlAnswers {
     AllSuccess,
     /// each call answers SUCCESS with probability num/8, otherwise a random error status
-    Random { seed: u64, success_eighths: u8 },
+    Random {
+        seed: u64,
+        success_eighths: u8,
+    },
 }
 
 pub struct Recorder {
@@ -202,13 +238,17 @@ impl Recorder {
     }
 
     fn push(&mut self, cb: Cb) {
-        let t = crate::verif::kernel::current().map(|c| c.now_ms()).unwrap_or(0);
+        let t = crate::verif::kernel::current()
+            .map(|c| c.now_ms())
+            .unwrap_or(0);
         if let Some(core) = crate::verif::kernel::current() {
             if core.log_enabled() {
                 core.log(format!("  callback {:?}", cb));
             }
         }
-        let order = crate::verif::kernel::current().map(|c| c.next_order()).unwrap_or(0);
+        let order = crate::verif::kernel::current()
+            .map(|c| c.next_order())
+            .unwrap_or(0);
         self.orders.push(order);
         self.log.push((t, cb));
     }
@@ -216,7 +256,9 @@ impl Recorder {
     fn next_status(&mut self) -> CommandStatus {
         match self.ctrl.clone() {
             CtrlAnswers::AllSuccess => CommandStatus::Success,
-            CtrlAnswers::Random { success_eighths, .. } => {
+            CtrlAnswers::Random {
+                success_eighths, ..
+            } => {
                 if self.ctrl_rng.below(8) < success_eighths as u64 {
                     CommandStatus::Success
                 } else {
@@ -256,7 +298,12 @@ impl OutstationApplication for App {
         r.push(Cb::WarmRestart);
         r.restart_delay
     }
-    fn freeze_counter(&mut self, indices: FreezeIndices, freeze_type: FreezeType, _database: &mut DatabaseHandle) -> Result<(), RequestError> {
+    fn freeze_counter(
+        &mut self,
+        indices: FreezeIndices,
+        freeze_type: FreezeType,
+        _database: &mut DatabaseHandle,
+    ) -> Result<(), RequestError> {
         let mut r = self.0.lock().unwrap();
         r.push(Cb::Freeze(format!("{:?} {:?}", indices, freeze_type)));
         r.freeze_result
@@ -280,7 +327,11 @@ impl OutstationApplication for App {
     fn end_confirm(&mut self, state: BufferState) -> MaybeAsync<()> {
         let t = state.types;
         self.0.lock().unwrap().push(Cb::EndConfirm {
-            classes: [state.classes.num_class_1, state.classes.num_class_2, state.classes.num_class_3],
+            classes: [
+                state.classes.num_class_1,
+                state.classes.num_class_2,
+                state.classes.num_class_3,
+            ],
             types: [
                 t.num_binary_input,
                 t.num_double_bit_binary_input,
@@ -298,40 +349,79 @@ impl OutstationApplication for App {
 
 impl OutstationInformation for Info {
     fn process_request_from_idle(&mut self, header: RequestHeader) {
-        self.0.lock().unwrap().push(Cb::Info(format!("process_request_from_idle {:?}", header.function)));
+        self.0.lock().unwrap().push(Cb::Info(format!(
+            "process_request_from_idle {:?}",
+            header.function
+        )));
     }
     fn broadcast_received(&mut self, function: FunctionCode, action: BroadcastAction) {
-        self.0.lock().unwrap().push(Cb::Info(format!("broadcast_received {:?} {:?}", function, action)));
+        self.0.lock().unwrap().push(Cb::Info(format!(
+            "broadcast_received {:?} {:?}",
+            function, action
+        )));
     }
     fn enter_solicited_confirm_wait(&mut self, ecsn: Sequence) {
-        self.0.lock().unwrap().push(Cb::Info(format!("enter_solicited_confirm_wait {}", ecsn.value())));
+        self.0.lock().unwrap().push(Cb::Info(format!(
+            "enter_solicited_confirm_wait {}",
+            ecsn.value()
+        )));
     }
     fn solicited_confirm_timeout(&mut self, ecsn: Sequence) {
-        self.0.lock().unwrap().push(Cb::Info(format!("solicited_confirm_timeout {}", ecsn.value())));
+        self.0.lock().unwrap().push(Cb::Info(format!(
+            "solicited_confirm_timeout {}",
+            ecsn.value()
+        )));
     }
     fn solicited_confirm_received(&mut self, ecsn: Sequence) {
-        self.0.lock().unwrap().push(Cb::Info(format!("solicited_confirm_received {}", ecsn.value())));
+        self.0.lock().unwrap().push(Cb::Info(format!(
+            "solicited_confirm_received {}",
+            ecsn.value()
+        )));
     }
     fn solicited_confirm_wait_new_request(&mut self) {
-        self.0.lock().unwrap().push(Cb::Info("solicited_confirm_wait_new_request".to_string()));
+        self.0
+            .lock()
+            .unwrap()
+            .push(Cb::Info("solicited_confirm_wait_new_request".to_string()));
     }
     fn wrong_solicited_confirm_seq(&mut self, ecsn: Sequence, seq: Sequence) {
-        self.0.lock().unwrap().push(Cb::Info(format!("wrong_solicited_confirm_seq {} {}", ecsn.value(), seq.value())));
+        self.0.lock().unwrap().push(Cb::Info(format!(
+            "wrong_solicited_confirm_seq {} {}",
+            ecsn.value(),
+            seq.value()
+        )));
     }
     fn unexpected_confirm(&mut self, unsolicited: bool, seq: Sequence) {
-        self.0.lock().unwrap().push(Cb::Info(format!("unexpected_confirm {} {}", unsolicited, seq.value())));
+        self.0.lock().unwrap().push(Cb::Info(format!(
+            "unexpected_confirm {} {}",
+            unsolicited,
+            seq.value()
+        )));
     }
     fn enter_unsolicited_confirm_wait(&mut self, ecsn: Sequence) {
-        self.0.lock().unwrap().push(Cb::Info(format!("enter_unsolicited_confirm_wait {}", ecsn.value())));
+        self.0.lock().unwrap().push(Cb::Info(format!(
+            "enter_unsolicited_confirm_wait {}",
+            ecsn.value()
+        )));
     }
     fn unsolicited_confirm_timeout(&mut self, ecsn: Sequence, retry: bool) {
-        self.0.lock().unwrap().push(Cb::Info(format!("unsolicited_confirm_timeout {} {}", ecsn.value(), retry)));
+        self.0.lock().unwrap().push(Cb::Info(format!(
+            "unsolicited_confirm_timeout {} {}",
+            ecsn.value(),
+            retry
+        )));
     }
     fn unsolicited_confirmed(&mut self, ecsn: Sequence) {
-        self.0.lock().unwrap().push(Cb::Info(format!("unsolicited_confirmed {}", ecsn.value())));
+        self.0
+            .lock()
+            .unwrap()
+            .push(Cb::Info(format!("unsolicited_confirmed {}", ecsn.value())));
     }
     fn clear_restart_iin(&mut self) {
-        self.0.lock().unwrap().push(Cb::Info("clear_restart_iin".to_string()));
+        self.0
+            .lock()
+            .unwrap()
+            .push(Cb::Info("clear_restart_iin".to_string()));
     }
 }
 
@@ -346,7 +436,12 @@ fn op_code(op: OperateType) -> u8 {
 macro_rules! control_support {
     ($t:ty, $g:expr, $v:expr) => {
         impl ControlSupport<$t> for Ctrl {
-            fn select(&mut self, control: $t, index: u16, _database: &mut DatabaseHandle) -> CommandStatus {
+            fn select(
+                &mut self,
+                control: $t,
+                index: u16,
+                _database: &mut DatabaseHandle,
+            ) -> CommandStatus {
                 let mut r = self.0.lock().unwrap();
                 let status = r.next_status();
                 r.push(Cb::Select {
@@ -358,7 +453,13 @@ macro_rules! control_support {
                 });
                 status
             }
-            fn operate(&mut self, control: $t, index: u16, op_type: OperateType, _database: &mut DatabaseHandle) -> CommandStatus {
+            fn operate(
+                &mut self,
+                control: $t,
+                index: u16,
+                op_type: OperateType,
+                _database: &mut DatabaseHandle,
+            ) -> CommandStatus {
                 let mut r = self.0.lock().unwrap();
                 let status = r.next_status();
                 r.push(Cb::Operate {
@@ -395,7 +496,10 @@ struct ConnListener(Rec);
 
 impl crate::app::Listener<ConnectionState> for ConnListener {
     fn update(&mut self, value: ConnectionState) -> MaybeAsync<()> {
-        self.0.lock().unwrap().push(Cb::Connection(value == ConnectionState::Connected));
+        self.0
+            .lock()
+            .unwrap()
+            .push(Cb::Connection(value == ConnectionState::Connected));
         MaybeAsync::ready(())
     }
 }
@@ -430,7 +534,13 @@ impl UpdateOp {
     }
 
     pub fn time(&self) -> Option<Time> {
-        self.time.map(|t| if self.synchronized { Time::synchronized(t) } else { Time::unsynchronized(t) })
+        self.time.map(|t| {
+            if self.synchronized {
+                Time::synchronized(t)
+            } else {
+                Time::unsynchronized(t)
+            }
+        })
     }
 
     pub fn apply(&self, db: &mut Database) -> UpdateInfo {
@@ -438,7 +548,15 @@ impl UpdateOp {
         let time = self.time();
         let opts = self.options();
         match self.ptype {
-            PointType::Binary => db.update2(self.index, &BinaryInput { value: self.value != 0.0, flags, time }, opts),
+            PointType::Binary => db.update2(
+                self.index,
+                &BinaryInput {
+                    value: self.value != 0.0,
+                    flags,
+                    time,
+                },
+                opts,
+            ),
             PointType::DoubleBit => db.update2(
                 self.index,
                 &DoubleBitBinaryInput {
@@ -453,11 +571,51 @@ impl UpdateOp {
                 },
                 opts,
             ),
-            PointType::BinaryOutputStatus => db.update2(self.index, &BinaryOutputStatus { value: self.value != 0.0, flags, time }, opts),
-            PointType::Counter => db.update2(self.index, &Counter { value: self.value as u32, flags, time }, opts),
-            PointType::FrozenCounter => db.update2(self.index, &FrozenCounter { value: self.value as u32, flags, time }, opts),
-            PointType::Analog => db.update2(self.index, &AnalogInput { value: self.value, flags, time }, opts),
-            PointType::AnalogOutputStatus => db.update2(self.index, &AnalogOutputStatus { value: self.value, flags, time }, opts),
+            PointType::BinaryOutputStatus => db.update2(
+                self.index,
+                &BinaryOutputStatus {
+                    value: self.value != 0.0,
+                    flags,
+                    time,
+                },
+                opts,
+            ),
+            PointType::Counter => db.update2(
+                self.index,
+                &Counter {
+                    value: self.value as u32,
+                    flags,
+                    time,
+                },
+                opts,
+            ),
+            PointType::FrozenCounter => db.update2(
+                self.index,
+                &FrozenCounter {
+                    value: self.value as u32,
+                    flags,
+                    time,
+                },
+                opts,
+            ),
+            PointType::Analog => db.update2(
+                self.index,
+                &AnalogInput {
+                    value: self.value,
+                    flags,
+                    time,
+                },
+                opts,
+            ),
+            PointType::AnalogOutputStatus => db.update2(
+                self.index,
+                &AnalogOutputStatus {
+                    value: self.value,
+                    flags,
+                    time,
+                },
+                opts,
+            ),
             PointType::OctetString => match OctetString::new(&self.bytes) {
                 Ok(s) => db.update2(self.index, &s, opts),
                 Err(_) => UpdateInfo::NoPoint,
@@ -478,7 +636,11 @@ pub fn add_point(db: &mut Database, p: &PointCfg) -> bool {
             p.index,
             class,
             BinaryInputConfig::new(
-                if p.svar == 1 { StaticBinaryInputVariation::Group1Var1 } else { StaticBinaryInputVariation::Group1Var2 },
+                if p.svar == 1 {
+                    StaticBinaryInputVariation::Group1Var1
+                } else {
+                    StaticBinaryInputVariation::Group1Var2
+                },
                 match p.evar {
                     1 => EventBinaryInputVariation::Group2Var1,
                     2 => EventBinaryInputVariation::Group2Var2,
@@ -490,7 +652,11 @@ pub fn add_point(db: &mut Database, p: &PointCfg) -> bool {
             p.index,
             class,
             DoubleBitBinaryInputConfig::new(
-                if p.svar == 1 { StaticDoubleBitBinaryInputVariation::Group3Var1 } else { StaticDoubleBitBinaryInputVariation::Group3Var2 },
+                if p.svar == 1 {
+                    StaticDoubleBitBinaryInputVariation::Group3Var1
+                } else {
+                    StaticDoubleBitBinaryInputVariation::Group3Var2
+                },
                 match p.evar {
                     1 => EventDoubleBitBinaryInputVariation::Group4Var1,
                     2 => EventDoubleBitBinaryInputVariation::Group4Var2,
@@ -502,8 +668,16 @@ pub fn add_point(db: &mut Database, p: &PointCfg) -> bool {
             p.index,
             class,
             BinaryOutputStatusConfig::new(
-                if p.svar == 1 { StaticBinaryOutputStatusVariation::Group10Var1 } else { StaticBinaryOutputStatusVariation::Group10Var2 },
-                if p.evar == 1 { EventBinaryOutputStatusVariation::Group11Var1 } else { EventBinaryOutputStatusVariation::Group11Var2 },
+                if p.svar == 1 {
+                    StaticBinaryOutputStatusVariation::Group10Var1
+                } else {
+                    StaticBinaryOutputStatusVariation::Group10Var2
+                },
+                if p.evar == 1 {
+                    EventBinaryOutputStatusVariation::Group11Var1
+                } else {
+                    EventBinaryOutputStatusVariation::Group11Var2
+                },
             ),
         ),
         PointType::Counter => db.add(
@@ -652,7 +826,10 @@ pub fn event_group(t: PointType) -> u8 {
 }
 
 pub fn type_slot(t: PointType) -> usize {
-    crate::verif::refcodec::app::ALL_TYPES.iter().position(|x| *x == t).unwrap()
+    crate::verif::refcodec::app::ALL_TYPES
+        .iter()
+        .position(|x| *x == t)
+        .unwrap()
 }
 
 /// the running node
@@ -674,7 +851,11 @@ impl OutNode {
         let rec: Rec = Arc::new(Mutex::new(Recorder::new(ctrl)));
         let config = cfg.to_config();
         let modes = LinkModes {
-            error_mode: if cfg.close_mode { LinkErrorMode::Close } else { LinkErrorMode::Discard },
+            error_mode: if cfg.close_mode {
+                LinkErrorMode::Close
+            } else {
+                LinkErrorMode::Discard
+            },
             read_mode: LinkReadMode::Stream,
         };
         let (task, handle) = OutstationTask::create(
@@ -692,7 +873,10 @@ impl OutNode {
                 add_point(db, p);
             }
         });
-        let (mut server, tx) = ServerTask::create(Session::outstation(task), Box::new(ConnListener(rec.clone())));
+        let (mut server, tx) = ServerTask::create(
+            Session::outstation(task),
+            Box::new(ConnListener(rec.clone())),
+        );
         let id = sim.spawn("outstation", async move {
             let _ = server.run().await;
         });
@@ -713,28 +897,54 @@ impl OutNode {
     pub async fn connect(&mut self, chunk: ChunkMode, chunk_seed: u64) {
         self.to_out = io::new_chan();
         self.from_out = io::new_chan();
-        let sock = SimSocket::new("outstation", self.to_out.clone(), self.from_out.clone(), chunk, chunk_seed);
+        let sock = SimSocket::new(
+            "outstation",
+            self.to_out.clone(),
+            self.from_out.clone(),
+            chunk,
+            chunk_seed,
+        );
         let id = self.next_session_id;
         self.next_session_id += 1;
         let mut tx = self.new_session.clone();
-        let _ = tx.send(NewSession::new(id, PhysLayer::Sim(Box::new(sock)))).await;
+        let _ = tx
+            .send(NewSession::new(id, PhysLayer::Sim(Box::new(sock))))
+            .await;
         self.connected = true;
     }
 
     /// a handle with which another simulated task (the S-PAIR acceptor) can hand connections to the server task
     pub fn connector(&self) -> OutConnector {
-        OutConnector { new_session: self.new_session.clone(), next_id: Arc::new(Mutex::new(1000)) }
+        OutConnector {
+            new_session: self.new_session.clone(),
+            next_id: Arc::new(Mutex::new(1000)),
+        }
     }
 
     /// hand a connection made of existing channels to the server task (S-PAIR: the other ends belong to the master's socket)
-    pub async fn connect_with(&mut self, inbox: ChanRef, outbox: ChanRef, chunk: ChunkMode, chunk_seed: u64) {
+    pub async fn connect_with(
+        &mut self,
+        inbox: ChanRef,
+        outbox: ChanRef,
+        chunk: ChunkMode,
+        chunk_seed: u64,
+    ) {
         self.to_out = inbox;
         self.from_out = outbox;
-        let sock = SimSocket::new("outstation", self.to_out.clone(), self.from_out.clone(), chunk, chunk_seed).closing_on_drop();
+        let sock = SimSocket::new(
+            "outstation",
+            self.to_out.clone(),
+            self.from_out.clone(),
+            chunk,
+            chunk_seed,
+        )
+        .closing_on_drop();
         let id = self.next_session_id;
         self.next_session_id += 1;
         let mut tx = self.new_session.clone();
-        let _ = tx.send(NewSession::new(id, PhysLayer::Sim(Box::new(sock)))).await;
+        let _ = tx
+            .send(NewSession::new(id, PhysLayer::Sim(Box::new(sock))))
+            .await;
         self.connected = true;
     }
 
@@ -770,7 +980,13 @@ pub struct OutConnector {
 
 impl OutConnector {
     /// a new connection for the outstation: `inbox` carries the octets written by the master, `outbox` those for the master
-    pub async fn connect_with(&self, inbox: ChanRef, outbox: ChanRef, chunk: ChunkMode, chunk_seed: u64) {
+    pub async fn connect_with(
+        &self,
+        inbox: ChanRef,
+        outbox: ChanRef,
+        chunk: ChunkMode,
+        chunk_seed: u64,
+    ) {
         let sock = SimSocket::new("outstation", inbox, outbox, chunk, chunk_seed).closing_on_drop();
         let id = {
             let mut n = self.next_id.lock().unwrap();
@@ -778,6 +994,8 @@ impl OutConnector {
             *n
         };
         let mut tx = self.new_session.clone();
-        let _ = tx.send(NewSession::new(id, PhysLayer::Sim(Box::new(sock)))).await;
+        let _ = tx
+            .send(NewSession::new(id, PhysLayer::Sim(Box::new(sock))))
+            .await;
     }
 }
